@@ -157,3 +157,13 @@ Theorem C11_manager_session_closed_keeps_the_rest : forall m h s e,
   In e (HandleLife.handles (fst (HandleLife.step m (HandleLife.SessionClosed h)))).
 Proof. exact HandleLifeFacts.session_closed_keeps_the_rest. Qed.
 Print Assumptions C11_manager_session_closed_keeps_the_rest.
+
+(* across slots the manager can give one pointer two live handles (also observed on the compiled class, see the source) *)
+Theorem C11_manager_one_handle_per_object_refuted_across_slots :
+  let xs := [HandleLife.AddObject 5 0 false 200; HandleLife.AddObject 6 0 false 200; HandleLife.AddObject 6 0 false 200; HandleLife.DestroyObject 1] in
+  let m := HandleLife.run HandleLife.init xs in
+  (snd (HandleLife.step m (HandleLife.AddObject 6 0 false 200)),
+   map (fun e => (HandleLife.eh e, HandleLife.eslot e, HandleLife.eobj e)) (HandleLife.handles (fst (HandleLife.step m (HandleLife.AddObject 6 0 false 200)))))
+  = (3, [(3, 6, 200); (2, 6, 200)]).
+Proof. exact HandleLifeFacts.one_handle_per_object_refuted_across_slots. Qed.
+Print Assumptions C11_manager_one_handle_per_object_refuted_across_slots.
